@@ -23,7 +23,11 @@ theorem ins_spec {m m' : List KV} {k : Key} {o : Nat} (hs : Sorted m) (h : ins m
   | nil =>
     simp only [ins, Option.some.injEq] at h; subst h
     refine ⟨by simp [Sorted], rfl, ?_, by simp⟩
-    intro x; simp only [lookup]; by_cases hx : x = k <;> simp [hx, eq_comm]
+    intro x; simp only [lookup]
+    by_cases hx : x = k
+    · subst hx; simp
+    · have : ¬ k = x := fun e => hx e.symm
+      simp [hx, this]
   | cons y ys ih =>
     obtain ⟨k', o'⟩ := y
     have hp := List.pairwise_cons.mp hs
@@ -244,5 +248,63 @@ theorem applyOne_defined {m : List KV} {k : Key} {op : Op} {o : Nat} (hs : Sorte
       · subst h2; simp
       · have hne : ¬ k' = k := fun e => h2 e.symm
         simp only [h2, if_false, hne, Option.isSome_map]; exact ih
+
+
+/-! ### bulk build -/
+
+theorem chunkAux_flatten {α} (n : Nat) (l : List α) : ∀ (room : Nat) (cur : List α),
+    (chunkAux n l room cur).flatten = cur.reverse ++ l := by
+  induction l with
+  | nil =>
+    intro room cur
+    simp only [chunkAux]
+    cases cur <;> simp
+  | cons x xs ih =>
+    intro room cur
+    simp only [chunkAux]
+    by_cases h : room = 0
+    · simp [h, ih]
+    · simp [h, ih]
+
+theorem chunk_flatten {α} (n : Nat) (l : List α) : (chunk n l).flatten = l := by
+  simp [chunk, chunkAux_flatten]
+
+theorem toListKids_append (a b : List Tree) : toListKids (a ++ b) = toListKids a ++ toListKids b := by
+  induction a with
+  | nil => simp [toListKids]
+  | cons t ts ih => simp [toListKids, ih]
+
+theorem toListKids_nodes (css : List (List Tree)) :
+    toListKids (css.map Tree.node) = toListKids css.flatten := by
+  induction css with
+  | nil => simp [toListKids]
+  | cons c cs ih => simp [toListKids, Tree.toList, toListKids_append, ih]
+
+theorem toListKids_leaves (cs : List (List KV)) : toListKids (cs.map Tree.leaf) = cs.flatten := by
+  induction cs with
+  | nil => simp [toListKids]
+  | cons c cs ih => simp [toListKids, Tree.toList, ih]
+
+theorem buildUp_toList (n : Nat) : ∀ (fuel : Nat) (ts : List Tree),
+    (buildUp n fuel ts).toList = toListKids ts := by
+  intro fuel
+  induction fuel with
+  | zero => intro ts; simp [buildUp, Tree.toList]
+  | succ fuel ih =>
+    intro ts
+    unfold buildUp
+    split
+    · simp [toListKids]
+    · rw [ih, toListKids_nodes, chunk_flatten]
+
+theorem build_toList (n : Nat) (l : List KV) : (build n l).toList = l := by
+  unfold build
+  split
+  · next h =>
+    have := chunk_flatten n l
+    rw [h] at this
+    simp at this
+    simp [Tree.toList, this]
+  · rw [buildUp_toList, toListKids_leaves, chunk_flatten]
 
 end Gsu.Btree
